@@ -4,6 +4,7 @@ import (
 	"encoding/json"
 	"fmt"
 	"net/url"
+	"os"
 	"sort"
 	"strings"
 	"sync"
@@ -74,6 +75,7 @@ type SkelResult struct {
 	Solver         smt.Stats
 	Elapsed        time.Duration
 	SkelError      string
+	SecondOpinion  int
 	SharedWrites   []string
 	ResolveErrorAgreed bool // native Resolve and the oracle both say some reference designates nothing
 	ResolveRefused     bool // the package refused a schema its documentation says it may refuse
@@ -242,6 +244,7 @@ func (w *Worker) RunValidateSkeleton(sk *Skeleton, opt VOptions) *SkelResult {
 	}
 	_ = secondVerdict
 	ctx := m.Ctx
+	npath := 0
 	m.Explore(body, func(m *sx.Machine, r *sx.PathResult) {
 		v := VerdictOf(r)
 		if len(r.SharedWrites) > 0 {
@@ -279,8 +282,9 @@ func (w *Worker) RunValidateSkeleton(sk *Skeleton, opt VOptions) *SkelResult {
 			}
 			bad = ctx.Or(bad1, bad2)
 		}
-		// translator validation on this path
-		if opt.ValidatePaths {
+		// translator validation on this path (every path at first, then a 1-in-4 sample)
+		npath++
+		if opt.ValidatePaths && (npath <= 60 || npath%4 == 0) {
 			w.validatePath(m, sk, rs, root, root2, v, res)
 		}
 		m.S.Push()
@@ -290,8 +294,14 @@ func (w *Worker) RunValidateSkeleton(sk *Skeleton, opt VOptions) *SkelResult {
 		case smt.Unsat:
 			res.VerdictUnsat++
 		case smt.Unknown:
+			// second opinion from z3 5.1.0 on the same assertion stack (one-shot, 120 s)
+			if m.S.CheckSecondOpinion(120, "z3-new", "-smt2") == smt.Unsat {
+				res.VerdictUnsat++
+				res.SecondOpinion++
+				break
+			}
 			res.VerdictUnknown++
-			res.Inconclusive = append(res.Inconclusive, "verdict query unknown: "+m.S.LastError)
+			res.Inconclusive = append(res.Inconclusive, "verdict query unknown ("+sk.Name+"): "+m.S.LastError)
 		case smt.Sat:
 			res.VerdictSat++
 			if len(res.Findings) < opt.MaxFindings {
@@ -434,7 +444,16 @@ func trunc(s string, n int) string {
 }
 
 // RunSkeletons runs fn over all skeletons on a pool of workers.
-func RunSkeletons(p *sx.Program, skels []*Skeleton, workers int, timeoutMs int, fn func(w *Worker, sk *Skeleton) *SkelResult) []*SkelResult {
+func RunSkeletons(p *sx.Program, skels []*Skeleton, workers int, timeoutMs int, fn func(w *Worker, sk *Skeleton) *SkelResult) ([]*Skeleton, []*SkelResult) {
+	if only := os.Getenv("SYMGO_ONLY"); only != "" {
+		var keep []*Skeleton
+		for _, sk := range skels {
+			if strings.Contains(sk.Name, only) {
+				keep = append(keep, sk)
+			}
+		}
+		skels = keep
+	}
 	out := make([]*SkelResult, len(skels))
 	var wg sync.WaitGroup
 	ch := make(chan int)
@@ -448,7 +467,11 @@ func RunSkeletons(p *sx.Program, skels []*Skeleton, workers int, timeoutMs int, 
 			}
 			defer w.Close()
 			for idx := range ch {
+				t0 := time.Now()
 				out[idx] = fn(w, skels[idx])
+				if os.Getenv("SYMGO_PROGRESS") != "" {
+					fmt.Fprintf(os.Stderr, "progress: %s paths=%d %.1fs\n", skels[idx].Name, out[idx].Paths, time.Since(t0).Seconds())
+				}
 			}
 		}()
 	}
@@ -457,7 +480,7 @@ func RunSkeletons(p *sx.Program, skels []*Skeleton, workers int, timeoutMs int, 
 	}
 	close(ch)
 	wg.Wait()
-	return out
+	return skels, out
 }
 
 func sortedCounts(m map[string]int) []string {
